@@ -5,7 +5,8 @@
    run_info.json last, DictArray.load keyed on the file), OldCode what the code did before. *)
 From Verif Require Import Base.Prelude Base.StrUtil Base.Index Base.NdArr Base.PyRange
   Model.MapSpec Model.MapRun Model.SymBody.
-From Verif Require Import Proofs.MapResumeFacts Proofs.MapValuesFacts Proofs.CrashFSFacts.
+From Verif Require Import Model.MapDenote Proofs.MapRunFacts.
+From Verif Require Import Proofs.MapResumeFacts Proofs.MapValuesFacts Proofs.MapResumeDenote Proofs.CrashFSFacts.
 From Verif Require Import Model.MapResume Model.CrashFS Model.CrashFSRef.
 
 (* ---------------------------------------------------------------- no_partial_returned *)
@@ -115,8 +116,47 @@ Example ex_ref3_runs : exists psF psR,
   /\ p_store psF = ref3_full /\ calls_of (p_tr psR) = [(s "f", Some 1); (s "m", Some 1)].
 Proof. do 2 eexists. split; [vm_compute; reflexivity|]. split; [vm_compute; reflexivity|]. split; vm_compute; reflexivity. Qed.
 
-(* Not proved in general: that the resumed run completes (it is proved to call only missing elements and, when it
-   completes, to end with F); that the Result.output arrays (not only the store) coincide. *)
+(* Completion and Result.output are proved below (C05_resume_completes_with_uninterrupted_result). *)
+
+(* resume_eq_uninterrupted, general, WITH completion and Result.output (C01 hypotheses + order conditions):
+   a resumed run (cleanup=False, no request) on any store that holds, where it holds something, denoted values,
+   completes, returns the denoted arrays and ends with the full denoted store.  By C06_map_run_sel_is_map_run the
+   denoted arrays are exactly what the uninterrupted run returns and stores. *)
+Theorem C05_resume_completes_with_uninterrupted_result : forall body user p inputs D rs,
+  body_arity body ->
+  request_ok p inputs = true -> denote_run body p inputs user = Ok D -> pipeline_order_ok p = true ->
+  (forall g, In g p -> fsub body p inputs D rs g) ->
+  exists ps, map_run_sel body p inputs user None rs = ROk ps
+    /\ (forall f, In f p -> ffull body p inputs D (p_store ps) f)
+    /\ (forall f o, In f p -> In o (fouts f) -> dict_get (p_out ps) o = dict_get (d_out D) o)
+    /\ Forall (dump_den body p inputs D) (p_tr ps).   (* and every value it dumps is the denoted one *)
+Proof. exact full_run_on_substore_denotes. Qed.
+Print Assumptions C05_resume_completes_with_uninterrupted_result.
+
+(* (b) at the level of the run's trace: every value the uninterrupted run dumps is the denoted one (last conjunct above,
+   with rs = empty_store), and ANY store built from the empty one by such dumps – any prefix or subset of the dumps of
+   the uninterrupted run, which is what a crash leaves – is a sub-store (fsub), so the theorem above applies to it:
+   the resume completes with the uninterrupted results.
+   `_partial`: what is NOT proved in general is the file-system plumbing between the two, i.e. that reading the
+   crashed folder back (Model/CrashFS.init_store on crash k of the compiled event list, including the RunInfo gate)
+   yields exactly such a replay; C05_crash_never_partial proves that no torn file is among the files read, the
+   reference pipelines decide the rest for every crash point, and crash injection checks it on every run. *)
+Theorem C05_crash_leaves_substore_partial : forall body p inputs D,
+  (forall g f o, In g p -> In f p -> In o (fouts g) -> In o (fouts f) -> g = f) ->
+  (forall f, In f p -> NoDup (fouts f)) ->
+  forall size_of : str -> nat,
+  (forall f sh mask o, In f p -> is_mapped f = true ->
+     shape_of {| x_p := p; x_inputs := inputs; x_shapes := d_shapes D |} f = Ok (sh, mask) -> In o (fouts f) ->
+     size_of o = prod (ext_of mask sh)) ->
+  forall tr, Forall (dump_den body p inputs D) tr ->
+  forall g, In g p -> fsub body p inputs D (fold_left (apply_dump size_of) tr empty_store) g.
+Proof. exact replay_sub. Qed.
+Print Assumptions C05_crash_leaves_substore_partial.
+
+Example ex_resume_hyps : forall r, In r ref_family ->
+  request_ok (r_funcs r) (r_inputs r) = true /\ is_ok (denote_run sym_body (r_funcs r) (r_inputs r) (r_user r)) = true
+  /\ pipeline_order_ok (r_funcs r) = true.
+Proof. intros r [<-|[<-|[<-|[]]]]; (split; [vm_compute; reflexivity|]); split; vm_compute; reflexivity. Qed.
 
 (* ---------------------------------------------------------------- resume_refuted_inplace *)
 (* What the code did before the repair (in-place writes, run_info.json first, DictArray.load keyed on the folder):
